@@ -33,6 +33,10 @@ def g(vals, name):
     return float(v) if isinstance(v, (int, float)) and not isinstance(v, bool) else 0.0
 
 
+def check_float(x):
+    return float(x) if isinstance(x, (int, float)) and not isinstance(x, bool) else 0.0
+
+
 def check_return(ctx, year, r, case):
     vals = r.values
     cat = catalog.get(year)
@@ -150,6 +154,29 @@ def shard(ctx, k, payload):
             ctx.count('active:' + a)
         if active:
             ctx.nt(f'{sc["year"]}|{sc["forms"]}|{sorted(active)}')
+        # the same return with its withholding moved so that the federal (or N.C.) balance is a few cents or a few
+        # dollars either side of zero: the balance equations have their corner there
+        v_ = r.values
+        for form_, key_, tax_l, pay_l in (('1040', 'w-2:0.box_2', '1040.24', '1040.33'), ('nc_d-400', 'w-2:0.box_17', 'nc_d-400.19', 'nc_d-400.25')):
+            if key_ not in sc['inputs'] or tax_l not in v_ or pay_l not in v_ or data.draw(st.integers(0, 2)) != 0:
+                continue
+            try:
+                old_ = float(sc['inputs'][key_].strip() or 0)
+            except ValueError:
+                continue
+            gap = data.draw(st.sampled_from([-250.0, -1.01, -1.0, -0.99, -0.5, -0.01, 0.0, 0.01, 0.5, 0.99, 1.0, 1.01, 250.0]))
+            new_ = round(old_ + (check_float(v_[tax_l]) - check_float(v_[pay_l])) + gap, 2)     # payments = tax + gap
+            if new_ < 0:
+                continue
+            sc2 = dict(sc, inputs=dict(sc['inputs'], **{key_: f'{new_:.2f}'}))
+            r2 = scenario.resolve(sc2)
+            ctx.case()
+            if r2.exc is not None or not r2.verdict:
+                ctx.count('near_zero_balance:not_solved')
+                continue
+            ctx.count(f'near_zero_balance:{form_}')
+            act2 = check_return(ctx, sc2['year'], r2, {'scenario': scenario.slim(sc2)})
+            ctx.nt(f'{sc["year"]}|{sc["forms"]}|nearzero|{form_}|{gap}|{sorted(act2)}')
         if len(ctx.samples) < 4 and len(active) >= 2:
             v = r.values
             ctx.sample({'year': sc['year'], 'forms': sc['forms'], 'active_floors': sorted(active),
